@@ -367,10 +367,26 @@ func c18Random(c *core.Ctx, idx int) {
 				bcond.SetEncap([]string{"(", ")"})
 				bcond.SetLogLevel("trace", 64)
 			default:
+				// (the handle kept from before the re-Init is an instance of its own: its settings are what they were)
+				bcond.SetLogLevel("debug", 4).SetID("kept").SetCategory("kept-cat").SetEncap("~")
 				keep := bcond
+				lv, id, cat, kw, txt := keep.LogLevels(), keep.ID(), keep.Category(), keep.Keyword(), keep.String()
 				bcond.Init()
 				bcond.SetKeyword("again").SetOperator(stackage.Ne).SetExpression(1).SetLogLevel(stackage.AllLogLevels)
-				_ = keep
+				if r.Bool() {
+					bcond.UnsetLogLevel(stackage.AllLogLevels)
+				}
+				bcond.SetID("fresh").SetCategory("fresh-cat").SetEncap("^")
+				if keep.LogLevels() != lv || keep.ID() != id || keep.Category() != cat || keep.Keyword() != kw || keep.String() != txt {
+					c.Violatef("kept-handle-after-reinit", map[string]any{"kind": kind},
+						"a Condition handle kept from before Init was called again on the variable read levels=%q id=%q category=%q keyword=%q text=%q, and reads levels=%q id=%q category=%q keyword=%q text=%q after the NEW instance was given its settings",
+						lv, id, cat, kw, txt, keep.LogLevels(), keep.ID(), keep.Category(), keep.Keyword(), keep.String())
+					return
+				}
+				if bcond.ID() != "fresh" || bcond.Category() != "fresh-cat" || bcond.Keyword() != "again" {
+					c.Violatef("fresh-instance-after-reinit", map[string]any{"kind": kind}, "the re-initialised Condition reads id=%q category=%q keyword=%q", bcond.ID(), bcond.Category(), bcond.Keyword())
+					return
+				}
 			}
 			c.Count("random.bystander-settings")
 		}
